@@ -60,6 +60,10 @@ fn main() {
     if args[1] == "C16-fault" && args.len() >= 4 {
         std::process::exit(c16::fault_child(args[2].parse().unwrap_or(0), &args[3]));
     }
+    if args[1] == "dump-corpus" && args.len() >= 4 {
+        dump_corpus(&args[2], &args[3]);
+        return;
+    }
     if args[1] == "diag" {
         diag();
         return;
@@ -144,4 +148,34 @@ pub fn diag() {
         }
     }
     println!("bad: {bad}");
+}
+
+/// the inputs of C20: the C04 space, a stride of the C01 cases and the C06 token mutations
+fn dump_corpus(tier: &str, path: &str) {
+    use std::io::Write;
+    let g = corpus::grammar();
+    let thorough = tier == "thorough";
+    let mut texts: Vec<String> = Vec::new();
+    for c in c04::build_space(&g, thorough) {
+        texts.push(c.doc.text());
+    }
+    let stride = if thorough { 1 } else { 6 };
+    for (i, c) in c01::build_cases(&g, thorough).into_iter().enumerate() {
+        if i % stride == 0 && c.spec.is_none() {
+            texts.push(c.text);
+        }
+    }
+    for l in c06::build(&g, false) {
+        if l.class.starts_with("token-") || l.class == "truncate" {
+            texts.push(l.text);
+        }
+    }
+    let mut seen = std::collections::HashSet::new();
+    texts.retain(|t| seen.insert(vcore::explore::fnv1a(t.as_bytes())));
+    let mut f = std::io::BufWriter::new(std::fs::File::create(path).expect("cannot create corpus file"));
+    for t in &texts {
+        f.write_all(&(t.len() as u32).to_le_bytes()).unwrap();
+        f.write_all(t.as_bytes()).unwrap();
+    }
+    println!("{} inputs", texts.len());
 }
